@@ -100,7 +100,8 @@ func VerifC18_ExpAvg() {
 	verif.Reach("end")
 }
 
-var verifAlphas = []float64{0.05, 0.5, 1.0, 0.01}
+// alpha decides the warm-up length ceil(1/alpha): 0.05 -> 20, 0.6 -> 2 (ceil != floor), 0.5 -> 2, 1.0 -> 1, 0.3 -> 4 (ceil != floor)
+var verifAlphas = []float64{0.05, 0.6, 0.5, 1.0, 0.3, 0.01}
 
 // VerifC18_MovingAverage: flag iff changed; the value stays within the hull of (old value, sample)
 // once a sample has been seen; Reset fresh.
@@ -110,6 +111,8 @@ func VerifC18_MovingAverage() {
 	alpha := verifAlphas[verif.Choice("alpha", verif.Tiered(2, len(verifAlphas)))]
 	m, err := NewSimpleExponentialMovingAverage(alpha)
 	verif.Assert("ema-constructed", err == nil)
+	// the arithmetic-mean warm-up lasts ceil(1/alpha) samples
+	verif.Assert("ema-warmup-length-is-ceil-of-inverse-alpha", m.minSamples == int(math.Ceil(1/alpha)))
 	// number of samples seen so far, enumerated (0, 1, 2, minSamples-1, minSamples) so that the
 	// warm-up weight 1/seen is a constant
 	seen := []int{0, 1, 2, m.minSamples - 1, m.minSamples}[verif.Choice("seen", 5)]
